@@ -24,7 +24,7 @@ func c05(c *q.Ctx) {
 		{Name: "header cache", Dirty: []string{"LRUCache.Add@*.blkHeaderCache"}, DirtyStores: []string{"InternalBlock.InTrunk@ledger.(*Ledger).fetchBlock(*", "InternalBlock.NextHash@ledger.(*Ledger).fetchBlock(*", "InternalBlock.InTrunk@phi{ledger.(*Ledger).fetchBlock(*", "InternalBlock.NextHash@phi{ledger.(*Ledger).fetchBlock(*"}},
 	}
 	infallible := map[string]string{
-		"UtxoItem.Dumps": "JSON of {*big.Int,int64} cannot fail",
+		"UtxoItem.Dumps":                                 "JSON of {*big.Int,int64} cannot fail",
 		"Meta.UpdateNextIrreversibleBlockHeight":         "fails only for a negative window, which NewMeta refuses to load, or when a batch Put fails, which the leveldb batch never does",
 		"Meta.UpdateNextIrreversibleBlockHeightForPrune": "as above",
 		"proto::Marshal":                                 "marshalling a well-formed message held in memory does not fail",
